@@ -509,7 +509,7 @@ func main() {
 	}
 
 	// ---- correspondence: toLower + caseFoldingEqualsRunes through matchContent
-	for i, n := 0, f.N(1500, 60000); i < n; i++ {
+	for i, n := 0, f.N(1000, 60000); i < n; i++ {
 		pat := genPattern(r, pool)
 		doc := genDoc(r, pat, pool, inv)
 		if len(doc) == 0 {
@@ -557,7 +557,7 @@ func main() {
 	}
 
 	// ---- generated searches
-	for i, n := 0, f.N(200, 8000); i < n; i++ {
+	for i, n := 0, f.N(150, 3000); i < n; i++ {
 		pl := pool
 		if i%3 == 0 {
 			pl = gen.FoldRunes
